@@ -878,7 +878,11 @@ func judge(run *ev.Run, rr *runResult) (nontrivialSig string) {
 		}
 	}
 	if finalIdx < 0 {
-		run.Inconclusive(fmt.Sprintf("script %d (%s/%s): no final instruction within processing timeout + %v", sc.ID, sc.Mode, sc.Class, watchdogExtra))
+		tail := mon.log
+		if len(tail) > 4 {
+			tail = tail[len(tail)-4:]
+		}
+		run.Inconclusive(fmt.Sprintf("script %d (%s/%s): no final instruction within processing timeout + %v; %d log lines, last: %v", sc.ID, sc.Mode, sc.Class, watchdogExtra, len(mon.log), tail))
 		run.Count("watchdog_no_final", 1)
 		return ""
 	}
@@ -1050,6 +1054,9 @@ func TestC34(t *testing.T) {
 	cp.SetSpec(spec)
 	w := &world{parser: cp, retries: lavaprotocol.NewRelayRetriesManager()}
 
+	for id := 0; id < 3; id++ { // warm-up (lazy initialisation inside the repo's packages), not judged
+		w.runScript(genScript(3*3+id, run.Seed))
+	}
 	nScripts := run.Pick(429, 12870) // multiples of 3 modes x 13 classes
 	results := make([]*runResult, nScripts)
 	jobs := make(chan int)
@@ -1059,7 +1066,15 @@ func TestC34(t *testing.T) {
 		go func() {
 			defer wg.Done()
 			for id := range jobs {
-				results[id] = w.runScript(genScript(id, run.Seed))
+				sc := genScript(id, run.Seed)
+				rr := w.runScript(sc)
+				// a watchdog expiry under machine load says nothing about the state machine: repeat the
+				// script (same script, fresh objects) before calling it inconclusive
+				for tries := 0; rr.watchdog && tries < 2; tries++ {
+					run.Count("watchdog_reruns", 1)
+					rr = w.runScript(sc)
+				}
+				results[id] = rr
 			}
 		}()
 	}
